@@ -100,18 +100,13 @@ def _within_rounding_sensitivity(name, a, obs, emb, init, iterations, opts, shap
     passing through a near-collapse).  The deviation between the original and the scaled run is compared with the deviation
     between the original run and a run on data perturbed by 1e-15 relative (fixed PRNG): within 1000x of that, the scaled
     run differs from the original no more than rounding itself makes the original differ from itself."""
-    if name == 'cbmm':
+    d_noise = pu.rounding_sensitivity(name, obs, emb, init, iterations, opts)
+    if d_noise is None:
         return False
     try:
-        prng = np.random.default_rng(12345)
-        o3 = None if obs is None else obs * (1 + 1e-15 * prng.standard_normal(obs.shape))
-        e3 = None if emb is None else emb * (1 + 1e-15 * prng.standard_normal(emb.shape))
-        c = pu.fit(name, o3, e3, init, iterations, opts)
-        g1, g2, g3 = pu.predict(name, a, obs, emb), pu.predict(name, b, obs2, emb2), pu.predict(name, c, o3, e3)
+        d_scaled = float(np.max(np.abs(pu.predict(name, a, obs, emb) - pu.predict(name, b, obs2, emb2))))
     except Exception:  # noqa
         return False
-    d_scaled = float(np.max(np.abs(g1 - g2)))
-    d_noise = float(np.max(np.abs(g1 - g3)))
     return np.isfinite(d_scaled) and d_scaled <= 1e-4 and d_scaled <= 1000 * d_noise
 
 
